@@ -294,12 +294,21 @@ Definition id_code (c : id_case) : N :=
               end
            && list_eqb2 (fun i o => pages_ok (fst i) (let '(pg, _, _, _) := o in pg)) ins outs).
 
-(** * The document level: the partitioner is run page by page (parser/document.rs
-    [do_partition_pages] calls the partitioner, and with it [assign_heading_paths], once per
-    page and concatenates), whereas the breadcrumb "that governs an element" is that of
-    the whole document. *)
-Definition assign_per_page (pages : list (list elem)) : list (list text) := flat_map assign pages.
+(** * The document level.  [PdfDocument::do_partition_pages] (parser/document.rs) runs the
+    partitioner — and with it [assign_heading_paths] — once per page and concatenates the
+    elements.  After fix_breadcrumb_across_pages it then runs [assign_heading_paths] once more
+    over the concatenation.  That pass reads only (is Title, font size, text) of an element,
+    never an existing path, and overwrites [heading_path]/[parent_heading] of EVERY element, so
+    the per-page paths are discarded and the result is [assign] of the whole document:
+    the stack and the size buckets no longer restart at a page break. *)
 Definition assign_document (pages : list (list elem)) : list (list text) := assign (concat pages).
+Definition do_partition_paths (pages : list (list elem)) : list (list text) :=
+  let per_page := map (fun pg => (pg, assign pg)) pages in   (* what the partitioner returns per page *)
+  assign (concat (map fst per_page)).                         (* the final whole-document pass *)
+
+(** the PINNED (pre-fix) behaviour: per-page paths were the final answer.  Kept only as the
+    subject of [per_page_pinned_refuted] / [per_page_ok_single]. *)
+Definition assign_per_page (pages : list (list elem)) : list (list text) := flat_map assign pages.
 
 (** end-to-end case: per chunk (pages of the authored blocks its words come from, the
     implementation's page_numbers), and the three observations made by the harness:
